@@ -85,6 +85,8 @@ pub struct IterExpect {
     pub final_count: usize,
     /// positions (in MRU -> LRU list order) yielded at each step
     pub positions: Vec<Option<usize>>,
+    /// remaining items, in iteration order, after the scripted steps
+    pub rest: L,
 }
 
 pub fn iter_expect(list: &L, spec: &IterSpec) -> IterExpect {
@@ -102,6 +104,7 @@ pub fn iter_expect(list: &L, spec: &IterSpec) -> IterExpect {
         clone_rest: None,
         final_count: 0,
         positions: vec![],
+        rest: vec![],
     };
     for i in 0..spec.steps {
         if spec.clone_at == i && spec.fam.clonable() {
@@ -128,6 +131,7 @@ pub fn iter_expect(list: &L, spec: &IterSpec) -> IterExpect {
         ex.clone_rest = Some(order[lo..hi].iter().map(|&p| list[p]).collect());
     }
     ex.final_count = hi - lo;
+    ex.rest = order[lo..hi].iter().map(|&p| list[p]).collect();
     ex
 }
 
